@@ -87,3 +87,187 @@ Theorem C08_reachable_satisfies_runtime_predicate :
   forall o s, wf_text o = true -> Reach the_cfg o s -> inv_b o (cur s) (m2o s) = true.
 Proof. exact (reachable_satisfies_inv_b the_cfg C08_facts_ok). Qed.
 Print Assumptions C08_reachable_satisfies_runtime_predicate.
+
+(* ================================================================== the character-level side of InputBuffer::build and
+   the accessors on it (Proofs/BufferCharProofs.v).  Texts are byte lists whose non-empty ones start with a lead byte
+   (`wf_text`), i.e. in particular every UTF-8 text. *)
+From SudachiVerif Require Import Proofs.BufferCharProofs.
+
+(* the loop bounds of get_word_candidate_length re-read from the source: for i in (char_idx + 1)..char_len *)
+Fact C08_char_facts_ok : SudachiVerif.Generated.BufferFacts.wcl_first_offset = 1.
+Proof. vm_compute. reflexivity. Qed.
+
+(* mod_b2c: every byte carries the index of its character, constant inside a character, one more at every boundary *)
+Theorem C08_ch_idx_inside_character :
+  forall t p, S p < length t -> is_boundary t (S p) = false -> ch_idx the_cfg t (S p) = ch_idx the_cfg t p.
+Proof. exact (ch_idx_inside_char the_cfg). Qed.
+Print Assumptions C08_ch_idx_inside_character.
+
+Theorem C08_ch_idx_steps_at_boundaries :
+  forall t p k, wf_text t = true -> S p < length t -> is_boundary t (S p) = true ->
+    ch_idx the_cfg t p = Some k -> ch_idx the_cfg t (S p) = Some (S k).
+Proof. exact (ch_idx_step the_cfg). Qed.
+Print Assumptions C08_ch_idx_steps_at_boundaries.
+
+(* ch_idx (to_curr_byte_idx i) = i, and to_curr_byte_idx (ch_idx p) = p on character boundaries (non-empty text) *)
+Theorem C08_ch_idx_of_to_curr_byte_idx :
+  forall t ci p, wf_text t = true -> t <> [] -> to_curr_byte_idx t ci = Some p -> ch_idx the_cfg t p = Some ci.
+Proof. exact (ch_idx_of_to_curr_byte_idx the_cfg C08_facts_ok). Qed.
+Print Assumptions C08_ch_idx_of_to_curr_byte_idx.
+
+Theorem C08_to_curr_byte_idx_of_ch_idx :
+  forall t p k, wf_text t = true -> t <> [] -> is_boundary t p = true ->
+    ch_idx the_cfg t p = Some k -> to_curr_byte_idx t k = Some p.
+Proof. exact (to_curr_byte_idx_of_ch_idx the_cfg C08_facts_ok). Qed.
+Print Assumptions C08_to_curr_byte_idx_of_ch_idx.
+
+(* to_curr_byte_idx is total on 0..=char_len, strictly monotone, and lands on character boundaries *)
+Theorem C08_to_curr_byte_idx_strictly_monotone :
+  forall t ci cj p q, ci < cj -> to_curr_byte_idx t ci = Some p -> to_curr_byte_idx t cj = Some q ->
+    p < q /\ is_boundary t p = true /\ is_boundary t q = true /\ q <= length t.
+Proof.
+  exact (fun t ci cj p q H Hp Hq =>
+    conj (to_curr_byte_idx_strict t ci cj p q H Hp Hq)
+      (conj (proj1 (to_curr_byte_idx_props t ci p Hp))
+        (conj (proj1 (to_curr_byte_idx_props t cj q Hq)) (proj1 (proj2 (to_curr_byte_idx_props t cj q Hq)))))).
+Qed.
+Print Assumptions C08_to_curr_byte_idx_strictly_monotone.
+
+(* to_orig_byte_idx and to_orig_char_idx are total and monotone on 0..=char_len of every reachable buffer, and the
+   char->byte table of the ORIGINAL inverts the reported code-point offset to the reported byte offset *)
+Theorem C08_to_orig_indices_monotone_and_inverse :
+  forall o s ci cj, wf_text o = true -> Reach the_cfg o s -> ci <= cj -> cj <= char_len (cur s) ->
+    exists bi bj ai aj,
+      to_orig_byte_idx s ci = Some bi /\ to_orig_byte_idx s cj = Some bj /\ bi <= bj /\
+      to_orig_char_idx the_cfg s ci = Some ai /\ to_orig_char_idx the_cfg s cj = Some aj /\ ai <= aj /\
+      nth ai (mod_c2b o) 0 = bi /\ nth aj (mod_c2b o) 0 = bj.
+Proof.
+  exact (fun o s ci cj Hwf HR => to_orig_idx_mono the_cfg C08_facts_ok o s ci cj (reach_inv the_cfg C08_facts_ok o s Hwf HR)).
+Qed.
+Print Assumptions C08_to_orig_indices_monotone_and_inverse.
+
+(* curr_slice_c(a..b) is the byte slice between the two character offsets (= curr_slice of those offsets) *)
+Theorem C08_curr_slice_c_is_byte_slice :
+  forall t a b, a <= b -> b <= char_len t ->
+    exists x y, to_curr_byte_idx t a = Some x /\ to_curr_byte_idx t b = Some y /\ x <= y /\
+                curr_slice_c t a b = Some (byte_slice t (x, y)) /\ curr_slice_c t a b = curr_slice t x y.
+Proof. exact curr_slice_c_spec. Qed.
+Print Assumptions C08_curr_slice_c_is_byte_slice.
+
+(* orig_slice_c(a..b) = orig_slice(mod_c2b[a]..mod_c2b[b]) = the original's bytes between the mapped offsets *)
+Theorem C08_orig_slice_c_is_byte_slice :
+  forall o s a b, wf_text o = true -> Reach the_cfg o s -> a <= b -> b <= char_len (cur s) ->
+    exists x y, to_curr_byte_idx (cur s) a = Some x /\ to_curr_byte_idx (cur s) b = Some y /\
+                orig_slice_c s a b = orig_slice s x y /\
+                orig_slice_c s a b = Some (byte_slice o (map_range (m2o s) (x, y))).
+Proof.
+  exact (fun o s a b Hwf HR => orig_slice_c_spec o s a b (reach_inv the_cfg C08_facts_ok o s Hwf HR)).
+Qed.
+Print Assumptions C08_orig_slice_c_is_byte_slice.
+
+(* char_distance(cpt, offset): the number of characters one can advance, capped by the end of the text *)
+Theorem C08_char_distance :
+  forall t cpt off, cpt <= char_len t ->
+    exists d, char_distance t cpt off = Some d /\ d <= off /\ cpt + d <= char_len t /\ (d = off \/ cpt + d = char_len t).
+Proof. exact char_distance_spec. Qed.
+Print Assumptions C08_char_distance.
+
+(* get_word_candidate_length(c): distance to the next character that can begin a word, or to the end of the text *)
+Theorem C08_word_candidate_length :
+  forall t bow ci, length bow = length t -> ci < char_len t ->
+    exists d, word_candidate_length t bow ci = Some d /\ 1 <= d /\ ci + d <= char_len t /\
+      (forall j p, 0 < j -> j < d -> to_curr_byte_idx t (ci + j) = Some p -> nth_error bow p = Some false) /\
+      (ci + d < char_len t -> forall p, to_curr_byte_idx t (ci + d) = Some p -> nth_error bow p = Some true).
+Proof. exact word_candidate_length_spec. Qed.
+Print Assumptions C08_word_candidate_length.
+
+(* cat_of_range(a..b): the classes common to all characters of a non-empty range *)
+Theorem C08_cat_of_range :
+  forall cats a b, a < b -> b <= length cats ->
+    exists r, cat_of_range cats a b = Some r /\
+      forall k, N.testbit r k = true <->
+        (N.testbit cat_all k = true /\ forall i, a <= i -> i < b -> N.testbit (nth i cats 0%N) k = true).
+Proof. exact cat_of_range_spec. Qed.
+Print Assumptions C08_cat_of_range.
+
+(* ------------------------------------------------------------------ Morpheme::begin / end / begin_c / end_c / surface
+   (user level; Python's Morpheme.begin() / end() are begin_c / end_c).  For every reachable buffer and every result node
+   whose character and byte coordinates agree (`rnode_ok`: mod_c2b[begin] = begin_bytes, mod_c2b[end] = end_bytes):
+   nothing panics, begin <= end are character boundaries of the original, begin_c / end_c are the numbers of code points of
+   the original before begin / end, the surface is the original's bytes begin..end, and slicing the original by the
+   code-point offsets gives the same bytes *)
+Theorem C08_morpheme_offsets :
+  forall o s n, wf_text o = true -> Reach the_cfg o s -> rnode_ok (cur s) n ->
+    exists b e,
+      morpheme_begin s n = Some b /\ morpheme_end s n = Some e /\ b <= e /\
+      is_boundary o b = true /\ is_boundary o e = true /\
+      morpheme_begin_c the_cfg s n = Some (codepoints_before o b) /\
+      morpheme_end_c the_cfg s n = Some (codepoints_before o e) /\
+      morpheme_surface s n = Some (byte_slice o (b, e)) /\
+      cp_slice o (codepoints_before o b) (codepoints_before o e) = byte_slice o (b, e).
+Proof.
+  exact (fun o s n Hwf HR => morpheme_offsets the_cfg C08_facts_ok o s n (reach_inv the_cfg C08_facts_ok o s Hwf HR)).
+Qed.
+Print Assumptions C08_morpheme_offsets.
+
+(* ... and every byte range on character boundaries of a non-empty rewritten text is the range of such a node, whose
+   character coordinates are ch_idx of its ends *)
+Theorem C08_every_boundary_range_is_a_node :
+  forall t x y, wf_text t = true -> t <> [] -> is_boundary t x = true -> is_boundary t y = true -> x <= y ->
+    exists bc ec, ch_idx the_cfg t x = Some bc /\ ch_idx the_cfg t y = Some ec /\ rnode_ok t (mkRN bc ec x y).
+Proof. exact (byte_range_node the_cfg C08_facts_ok). Qed.
+Print Assumptions C08_every_boundary_range_is_a_node.
+
+(* ================================================================== C07's offset bookkeeping is C08's offset map
+   (Proofs/OffsetsLink.v).  Model/Normalize.v describes, on the code-point level, where each character of a plugin's
+   output comes from (`offsets_after t es`: a byte offset of the text t the plugin saw, per output character and for the
+   end).  For the byte-level batch `tr_edits t es` that Proofs/NormalizeBuffer.v derives from the same edits, the map that
+   `commit` builds, read at the byte offset of every character of the new text and at its end (the entries of
+   mod_c2b (cur s')), is exactly offsets_after looked up in the previous map -- for every buffer state satisfying the
+   invariant, hence also through stacked plugins; on a fresh buffer it is offsets_after itself. *)
+From SudachiVerif Require Proofs.OffsetsLink Proofs.NormalizeBuffer Model.Normalize Proofs.PipelineFull.
+From SudachiVerif Require Generated.NormalizeFacts.
+
+Theorem C08_offsets_after_is_m2o :
+  forall o t s es r s', wf_text o = true -> Reach the_cfg o s ->
+    cur s = PipelineFull.enc t -> Normalize.apply_edits t es = Some r ->
+    commit the_cfg s (NormalizeBuffer.tr_edits t es) = Ok s' ->
+    cur s' = PipelineFull.enc r /\
+    map (fun p => nth p (m2o s') 0) (mod_c2b (cur s'))
+    = map (fun x => nth (N.to_nat x) (m2o s) 0) (Normalize.offsets_after t es).
+Proof.
+  exact (fun o t s es r s' Hwf HR =>
+    OffsetsLink.offsets_after_is_m2o the_cfg C08_facts_ok o t s es r s' (reach_inv the_cfg C08_facts_ok o s Hwf HR)).
+Qed.
+Print Assumptions C08_offsets_after_is_m2o.
+
+Theorem C08_offsets_after_is_m2o_on_a_fresh_buffer :
+  forall t s0 es r s',
+    start_build the_cfg (PipelineFull.enc t) = Ok s0 -> Normalize.apply_edits t es = Some r ->
+    commit the_cfg s0 (NormalizeBuffer.tr_edits t es) = Ok s' ->
+    cur s' = PipelineFull.enc r /\
+    map (fun p => nth p (m2o s') 0) (mod_c2b (cur s')) = map N.to_nat (Normalize.offsets_after t es).
+Proof. exact (OffsetsLink.offsets_after_is_m2o_fresh the_cfg C08_facts_ok). Qed.
+Print Assumptions C08_offsets_after_is_m2o_on_a_fresh_buffer.
+
+(* for the three real plugins (facts about their source re-read on this run): after the plugin's own edits the text is the
+   encoding of its specification and the new map is the plugin's offsets_after composed with the old map *)
+Fact C08_normalize_facts_ok :
+  Generated.NormalizeFacts.slow_search_earliest = false /\ Generated.NormalizeFacts.lowercase_guard_is_uppercase = false /\
+  Generated.NormalizeFacts.path_guard_is_uppercase = false.
+Proof. vm_compute. repeat split; reflexivity. Qed.
+
+Theorem C08_plugin_offsets :
+  forall p o t s s', NormalizeBuffer.plugin_wf p -> wf_text o = true -> Reach the_cfg o s ->
+    cur s = PipelineFull.enc t ->
+    commit the_cfg s (NormalizeBuffer.tr_edits t (NormalizeBuffer.plugin_edits p t)) = Ok s' ->
+    cur s' = PipelineFull.enc (NormalizeBuffer.plugin_spec p t) /\
+    map (fun q => nth q (m2o s') 0) (mod_c2b (cur s'))
+    = map (fun x => nth (N.to_nat x) (m2o s) 0) (Normalize.offsets_after t (NormalizeBuffer.plugin_edits p t)).
+Proof.
+  exact (fun p o t s s' Hp Hwf HR Hc =>
+    OffsetsLink.offsets_after_is_m2o the_cfg C08_facts_ok o t s _ _ s' (reach_inv the_cfg C08_facts_ok o s Hwf HR) Hc
+      (NormalizeBuffer.plugin_apply (proj1 C08_normalize_facts_ok) (proj1 (proj2 C08_normalize_facts_ok))
+         (proj2 (proj2 C08_normalize_facts_ok)) p t Hp)).
+Qed.
+Print Assumptions C08_plugin_offsets.
